@@ -62,6 +62,8 @@ fn main() {
             });
             e1o::run(seed, shard, nshards, a.u64("cases", if thorough { 40 } else { 3 }), a.u64("max_faults", if thorough { 400 } else { 60 }) as usize, only, &mut rep);
         }
+        "e5c15" => e5::run_c15(seed, shard, a.u64("requests", if thorough { 6000 } else { 400 }), &mut rep),
+        "e5c16" => e5::run_c16(seed, shard, a.u64("messages", if thorough { 6000 } else { 400 }), &mut rep),
         "e2" => {
             let only = replay.as_ref().map(|r| {
                 let name = r["scenario"].as_str().unwrap_or("").to_string();
